@@ -1276,7 +1276,9 @@ class ComplexModelBase(ModelBase):
     def _process_variants(cls, retval):
         orig = getattr(retval, '__orig__', None)
         if orig is not None:
-            if orig.Attributes._variants is None:
+            # look only at orig's own Attributes: a subclass' Attributes class
+            # inherits its parent's, including the parent's variant registry
+            if vars(orig.Attributes).get('_variants') is None:
                 orig.Attributes._variants = WeakKeyDictionary()
             orig.Attributes._variants[retval] = True
             # _variants is only for the root class.
@@ -1303,8 +1305,9 @@ class ComplexModelBase(ModelBase):
 
     @classmethod
     def _append_to_variants(cls, field_name, field_type):
-        if cls.Attributes._variants is not None:
-            for c in cls.Attributes._variants:
+        variants = vars(cls.Attributes).get('_variants')
+        if variants is not None:
+            for c in variants:
                 c.append_field(field_name, field_type)
 
     @classmethod
@@ -1314,8 +1317,9 @@ class ComplexModelBase(ModelBase):
 
     @classmethod
     def _insert_to_variants(cls, index, field_name, field_type):
-        if cls.Attributes._variants is not None:
-            for c in cls.Attributes._variants:
+        variants = vars(cls.Attributes).get('_variants')
+        if variants is not None:
+            for c in variants:
                 c.insert_field(index, field_name, field_type)
 
     @classmethod
@@ -1345,8 +1349,9 @@ class ComplexModelBase(ModelBase):
 
     @classmethod
     def _replace_in_variants(cls, field_name, field_type):
-        if cls.Attributes._variants is not None:
-            for c in cls.Attributes._variants:
+        variants = vars(cls.Attributes).get('_variants')
+        if variants is not None:
+            for c in variants:
                 c._replace_field(field_name, field_type)
 
     @classmethod
